@@ -327,7 +327,17 @@ func checkNegative(c negCase, r *h.Rec) error {
 		if !c.Full && !o.primary(l) {
 			continue
 		}
-		want, refErr := cvx.refOpen(d, cand, o.Order, cvx.legacy())
+		// The reference reads hybrid point forms too. Whether a decoder has to
+		// is not settled by the property: the SM2-curve path offers no hybrid
+		// form at all, and for a hybrid prefix whose parity bit contradicts y
+		// GB/T 32918.1 4.2.10 e) allows both behaviours (e.1 takes y as
+		// encoded, e.2 recomputes it). For such candidates either verdict is
+		// accepted - but if the library decrypts, then to the reference's text.
+		want, refErr := cvx.refOpen(d, cand, o.Order, true)
+		optional := false
+		if refErr == nil && (cand[0] == 6 || cand[0] == 7) {
+			optional = !cvx.legacy() || cand[0]&1 != cand[2*cvx.BL]&1
+		}
 		if cvx.legacy() && o.ASN1 && len(cand) > 0 && cand[0] != 0x30 && refErr == nil {
 			// the legacy path takes ASN1DecrypterOpts literally and reads
 			// nothing but a SEQUENCE with them
@@ -344,12 +354,19 @@ func checkNegative(c negCase, r *h.Rec) error {
 		switch {
 		case refErr != nil && err == nil:
 			return fmt.Errorf("%s accepted a byte string that is not a valid ciphertext (%v), mutation %s pos %d val %#x of a %v ciphertext; returned %s\ncandidate %s\n    valid %s", o.Name, refErr, c.Mut, c.Pos, c.Val, l, h.Hex(pt), h.Hex(cand), h.Hex(valid))
+		case o.Soft && err != nil:
+			continue
+		case optional && err != nil:
+			r.Label("hybrid form (optional): refused")
+			continue
 		case refErr == nil && err != nil:
 			return fmt.Errorf("%s refused (%v) a byte string the reference decrypts to %s, mutation %s of a %v ciphertext\ncandidate %s", o.Name, err, h.Hex(want), c.Mut, l, h.Hex(cand))
 		case refErr == nil && !bytes.Equal(pt, want):
 			return fmt.Errorf("%s returned %s, reference %s\ncandidate %s", o.Name, h.Hex(pt), h.Hex(want), h.Hex(cand))
 		}
-		if refErr == nil {
+		if optional {
+			r.Label("hybrid form (optional): accepted")
+		} else if refErr == nil {
 			r.Label("candidate-still-valid")
 		} else if o.matches(l) || c.Full {
 			r.Label("refused: " + refErr.Error())
@@ -435,9 +452,9 @@ func negBases(thorough bool) []baseSpec {
 	du, _ := keyClass(6, h.Seed)
 	dz, _ := keyClass(4, h.Seed)
 	bs := []baseSpec{
-		{D: b32(d0), K: k(1), MsgLen: 1, Seed: 1},                                          // the shortest ciphertext
-		{D: b32(d0), K: b32(hexBig(specialKs[4])), MsgLen: 19, Seed: 2},                    // x1 leading zero byte: shorter INTEGER
-		{D: b32(du), K: k(3), MsgLen: 40, MsgKind: kindMask, Seed: 3},                      // C2 all zero
+		{D: b32(d0), K: k(1), MsgLen: 1, Seed: 1},                       // the shortest ciphertext
+		{D: b32(d0), K: b32(hexBig(specialKs[4])), MsgLen: 19, Seed: 2}, // x1 leading zero byte: shorter INTEGER
+		{D: b32(du), K: k(3), MsgLen: 40, MsgKind: kindMask, Seed: 3},   // C2 all zero
 	}
 	if thorough {
 		bs = append(bs,
@@ -561,7 +578,7 @@ func TestC07_NegativeStructured(t *testing.T) {
 
 func TestC07_NegativeRandom(t *testing.T) {
 	muts := append([]string{"sub", "sub", "sub", "sub2", "sub2", "trunc", "cutfront", "append", "delete", "insert"}, structuredMuts...)
-	h.Prop(t, h.P{Name: "negative-random", Quick: 1500, Thorough: 40000}, func(rt *rapid.T) negCase {
+	h.Prop(t, h.P{Name: "negative-random", Quick: 1000, Thorough: 40000}, func(rt *rapid.T) negCase {
 		seed := rapid.Uint64().Draw(rt, "seed")
 		d, _ := keyClass(rapid.IntRange(0, 63).Draw(rt, "keyClass"), h.Seed)
 		n := rapid.OneOf(rapid.IntRange(1, 64), gen.LenClass(1024, 32, 96, 128, 256)).Draw(rt, "len")
